@@ -309,6 +309,22 @@ class C07(Cfg):
             fail("placing-reference-author", "entry %d is placed in list %s of %d by a reference of key %d, who is neither its author nor an admin" % (r["id"], lst, owner, good[0]["by"]))
         placed.setdefault(r["id"], set()).add((owner, lab))
 
+    def _group_placing(self, fail, placed, room, au, edges, spec_admin):
+        """the reference that attaches a group that is new to `room`: it must start at the room row with the
+        groups' label and be signed by an admin at its date (a group row is re-signed on every update of the
+        group, so the reference cannot be tied to the row's author)"""
+        gid = au["row"]["id"]
+        good = [e for e in edges if e["dst"] == gid and e["src"] == room and e["l"] == 33 and e["se"] == 100]
+        by_admin = [e for e in good if spec_admin(e["by"], e["c"])]
+        before = placed.get(gid, set())
+        if before and (room, 33) not in before and not by_admin:
+            fail("replayed-entry", "group %d, stored under %s, is now also accepted in room %d by a reference that no admin signed" % (gid, sorted(before), room))
+        elif not good:
+            fail("placing-reference-label", "group %d is accepted in room %d without a reference carrying the groups' label and the room entity" % (gid, room))
+        elif not by_admin:
+            fail("placing-reference-author", "group %d is attached to room %d by a reference of key %d, who is no admin at its date" % (gid, room, good[0]["by"]))
+        placed.setdefault(gid, set()).add((room, 33))
+
     def _accepted(self, fail, specs, placed, room, c):
         # two rows with one id in a list: only the first is compared with the stored entry, and a row whose id
         # is stored is never judged as a new entry
@@ -342,6 +358,7 @@ class C07(Cfg):
             for au in c["auths"]:
                 gid = au["row"]["id"]
                 if not adm(au["row"]["by"], au["row"]["m"]): fail("entry-by-unentitled-author", "new room: group %d by key %d" % (gid, au["row"]["by"]))
+                self._group_placing(fail, placed, room, au, c["authedges"], adm)
                 for lst, ek in (("rights", "redges"), ("users", "uedges"), ("uadmins", "uaedges")):
                     for r in au[lst]:
                         ok = adm(r["by"], r["m"]) or (lst == "users" and spec.can_admin_users(gid, r["by"], r["m"]))
@@ -394,6 +411,7 @@ class C07(Cfg):
             else:
                 something_new = True
                 if not adm(au["row"]["by"], au["row"]["m"]): fail("entry-by-unentitled-author", "new group %d by key %d" % (gid, au["row"]["by"]))
+                self._group_placing(fail, placed, room, au, c["authedges"], adm)
                 grp = {"row": au["row"], "users": [], "uadmins": [], "rights": []}
                 spec.groups[gid] = grp
                 for lst, ek in (("uadmins", "uaedges"), ("users", "uedges"), ("rights", "redges")):
